@@ -85,14 +85,15 @@ func fieldMatches(fs j5schema.FieldSchema, fd protoreflect.FieldDescriptor, item
 		}
 		return fieldMatches(t.Schema, fd, true)
 	case *j5schema.MapField:
-		if item {
-			return "map schema as an item"
-		}
-		if fd.IsMap() {
+		if !item && fd.IsMap() {
 			return fieldMatches(t.Schema, fd.MapValue(), true)
 		}
-		if fd.Kind() == protoreflect.MessageKind && fd.Message().FullName() == "google.protobuf.Struct" {
+		// google.protobuf.Struct is read as a map of any, also as an array item or a map value
+		if fd.Kind() == protoreflect.MessageKind && fd.Message().FullName() == "google.protobuf.Struct" && (item || !fd.IsList()) {
 			return ""
+		}
+		if item {
+			return "map schema as an item"
 		}
 		return "map schema on a non-map field"
 	}
@@ -427,11 +428,36 @@ func workC18(req *Request, set []byte) {
 			}
 			o.Sub = append(o.Sub, encP, decP)
 			o.SubMsg = append(o.SubMsg, short(encM), short(decM))
-			// one message per field with only that field set: the worst encode class
-			// is what the model's per-property usability predicts
+			// one message per client property with only the field on its proto path set: the
+			// worst encode class is what the model's per-property usability predicts
 			fieldClass, fieldMsg := "ok", ""
-			for i := 0; i < md.Fields().Len(); i++ {
-				one := descgen.PopulateField(md, i)
+			var paths [][]protoreflect.FieldNumber
+			var names []string
+			addProps := func(ps []*j5schema.ObjectProperty) {
+				for _, p := range ps {
+					if len(p.ProtoField) > 0 {
+						paths = append(paths, p.ProtoField)
+						names = append(names, p.JSONName)
+					} else if of, ok := p.Schema.(*j5schema.OneofField); ok {
+						if os, ok := of.Ref.To.(*j5schema.OneofSchema); ok {
+							for _, q := range os.Properties {
+								if len(q.ProtoField) > 0 {
+									paths = append(paths, q.ProtoField)
+									names = append(names, p.JSONName+"."+q.JSONName)
+								}
+							}
+						}
+					}
+				}
+			}
+			switch rt := root.(type) {
+			case *j5schema.ObjectSchema:
+				addProps(rt.ClientProperties())
+			case *j5schema.OneofSchema:
+				addProps(rt.Properties)
+			}
+			for i, path := range paths {
+				one := descgen.PopulatePath(md, path)
 				class, msg, site := guard(func() error {
 					_, err := c.ProtoToJSON(one)
 					return err
@@ -440,7 +466,7 @@ func workC18(req *Request, set []byte) {
 					msg += " @" + site
 				}
 				if rank[class] > rank[fieldClass] {
-					fieldClass, fieldMsg = class, string(md.Fields().Get(i).Name())+": "+msg
+					fieldClass, fieldMsg = class, names[i]+": "+msg
 				}
 			}
 			o.Sub = append(o.Sub, fieldClass)
